@@ -418,3 +418,26 @@ func HarnessC05Encode() {
 		vndAssert(got == want, "encoding-agrees-with-the-contents")
 	}
 }
+
+// C05.sizes: every size from 0 to 16 distinct keys (the Set uses fixed-size
+// arrays up to a threshold): nothing lost, sorted, every key found
+var c05ManyKeys = []Key{"k00", "k01", "k02", "k03", "k04", "k05", "k06", "k07", "k08", "k09", "k10", "k11", "k12", "k13", "k14", "k15"}
+
+func HarnessC05Sizes() {
+	n := vndChoice(17)
+	base := vndI64()
+	var kvs []KeyValue
+	for i := n - 1; i >= 0; i-- { // reversed input order
+		kvs = append(kvs, c05ManyKeys[i].Int64(base+int64(i)))
+	}
+	s := NewSet(kvs...)
+	vndReach("built")
+	vndAssert(s.Len() == n, "long-no-key-lost")
+	for i := 0; i < n; i++ {
+		v, ok := s.Value(c05ManyKeys[i])
+		vndAssert(ok && v.AsInt64() == base+int64(i), "lookup-agrees-with-contents")
+		kv, ok2 := s.Get(i)
+		vndAssert(ok2 && kv.Key == c05ManyKeys[i], "sorted-by-key")
+	}
+	vndAssert(s.Equals(&s), "set-equals-itself")
+}
